@@ -1,6 +1,7 @@
 package vsim
 
 import (
+	"golang.org/x/sys/unix"
 	"verif/sim/runner"
 	"verif/sim/vsys"
 )
@@ -434,6 +435,57 @@ func Generate(seed uint64, prop, tier string) *Plan {
 			}
 		}
 	}
-	_ = vsys.Fault{}
+	addStartFault(r, p, prop)
 	return p
+}
+
+// addStartFault (C07 only): a descriptor-creating call fails while the engine or
+// client starts (descriptor limit, memory), or while Dup/Register/Enroll
+// duplicate a descriptor: Run (Client.Start) must return with everything it had
+// created closed again, and nothing that is still running may use a closed number.
+func addStartFault(r *runner.Rand, p *Plan, prop string) {
+	if prop != "C07" {
+		return
+	}
+	c := &p.Cfg
+	if r.Chance(1, 4) {
+		c.KeepAlive = 60
+	}
+	if !r.Chance(1, 6) {
+		return
+	}
+	sites := []string{"socket", "bind", "listen", "epoll_create", "eventfd", "epoll_ctl_add", "epoll_ctl_add", "setsockopt"}
+	if c.Client {
+		sites = []string{"epoll_create", "eventfd", "epoll_ctl_add"}
+	}
+	site := sites[r.Intn(len(sites))]
+	dups := 0
+	for _, u := range p.Users {
+		for _, op := range u.Ops {
+			switch op.K {
+			case "dup", "duplistener", "enroll", "cenroll":
+				dups++
+			}
+		}
+	}
+	if dups > 0 && r.Chance(1, 2) {
+		site = "fcntl_dupfd"
+	}
+	f := vsys.Fault{Site: site, Nth: r.Range(1, max(1, c.Loops)+2), Errno: int(unix.EMFILE)}
+	switch site {
+	case "bind":
+		f.Errno = int(unix.EADDRINUSE)
+	case "epoll_ctl_add":
+		f.Errno = int(unix.ENOMEM)
+		f.Class = []string{"eventfd", "listener"}[r.Intn(2)]
+		if c.Client {
+			f.Class = "eventfd"
+		}
+	case "fcntl_dupfd":
+		f.Nth = r.Range(1, dups)
+	case "setsockopt":
+		f.Errno = int(unix.ENOPROTOOPT)
+		f.Nth = r.Range(1, 6)
+	}
+	p.Faults = append(p.Faults, f)
 }
